@@ -36,7 +36,7 @@ META = dict(
               '__init__ chain (def-use of each argument into the attribute '
               'the saver reads), co_varnames/attribute-name collision, '
               '3-valued evaluation of the saver filter, yaml tag writer/reader '
-              'table agreement, Model map-key vs constructor-signature inclusion; producer / writer / reader agreement on the number of stage results of a tempered result',
+              'table agreement, Model map-key vs constructor-signature inclusion; producer / writer / reader agreement on the number of stage results of a tempered result; the stored attribute is the argument or a normalisation of it, never arithmetic on it',
     level_text='Static, exhaustive over every serialisable class and every '
                'constructor argument in the source tree: decides the structural '
                'clauses R1-R5 (a lost or constant-stored argument, a local that '
@@ -152,6 +152,53 @@ def run(check, prog):
     from hpstatic.poly import Canon
     c14.r8_uniform_guess(check, prog, Canon())
     tempered_stage_count(check, prog)
+    shared_objects_aliased(check, prog)
+
+
+def shared_objects_aliased(check, prog):
+    """R8: an object that occurs at several places of what is saved is written
+    once and referred to afterwards, so that it is one object again on load.  One
+    prior object at several places *is* the tie between them (C11: one parameter
+    per distinct prior), so writing it out once per place turns a two-parameter
+    cluster into a four-parameter one.  PyYAML's own `represent_mapping` records
+    each node under the dumper's alias key before it descends; a representer that
+    builds its MappingNode by hand has to do the same."""
+    import ast
+    n = 0
+    for cq in sorted(prog.classes):
+        c = prog.classes[cq]
+        fd = c.methods.get('to_yaml')
+        if fd is None or not prog.is_subclass(cq, HPO):
+            continue
+        args = [a.arg for a in fd.args.args]
+        if len(args) < 3:
+            continue
+        dumper = args[1]
+        built = [t.targets[0].id for t in ast.walk(fd) if isinstance(t, ast.Assign)
+                 and len(t.targets) == 1 and isinstance(t.targets[0], ast.Name)
+                 and isinstance(t.value, ast.Call)
+                 and ast.unparse(t.value.func).endswith('MappingNode')]
+        if not built:
+            continue                # delegates to the dumper's own methods
+        n += 1
+        recorded = False
+        for t in ast.walk(fd):
+            if isinstance(t, ast.Assign) and len(t.targets) == 1 and \
+                    isinstance(t.targets[0], ast.Subscript) and \
+                    isinstance(t.value, ast.Name) and t.value.id in built:
+                tgt = t.targets[0]
+                if ast.unparse(tgt.value) == dumper + '.represented_objects' and \
+                        ast.unparse(tgt.slice) == dumper + '.alias_key':
+                    recorded = True
+        check.require(recorded, 'R8-shared-objects-aliased', c.name + '.to_yaml',
+                      'the mapping node built by hand is recorded under the '
+                      'dumper\'s alias key', prog.loc(cq, fd),
+                      fail_detail='%s = MappingNode(...) is never stored in %s.'
+                      'represented_objects[%s.alias_key]: an object met again is '
+                      'written out again -- a prior shared between two spheres '
+                      'reloads as two priors (model parameters r, x become 0:r, x, '
+                      '1:r, x_0)' % (built[0], dumper, dumper))
+    check.floor('hand-built yaml mapping nodes', n, 1)
 
 
 def tempered_stage_count(check, prog):
